@@ -111,6 +111,12 @@ def streams(ctx, budget):
         for tail in (0, 3, 60):
             bad = gen.frame(9, b'\x2e' * j + b'\x31' + bytes(rng.randrange(256) for _ in range(8)), crc=rng.getrandbits(32))
             out.append((bad + bytes(tail) + z + gen.frame(9, b'abc', seq=7), 'duprun%d' % j))
+    # a false preamble whose (impossible) size field completes inside the following real message: the rejected
+    # header's bytes hold the start of a message the scan accepts
+    for k in (20, 21, 22, 23, 24):
+        for L in (40, 200, 5000, 0x7FFFFFFF, 0xFFFFFFE7, 0xFFFFFFE8, 0xFFFFFFF0, 0xFFFFFFFF):
+            bogus = (b'\x2e\x31\x00\x00' + bytes(rng.randrange(256) for _ in range(12)) + L.to_bytes(4, 'little') + bytes(4))[:k]
+            out.append((gen.frame(9, b'q', seq=1) + bogus + gen.frame(9, b'0123456789abcdef', seq=2) + z, 'straddle%d' % k))
     return out
 
 
